@@ -68,7 +68,7 @@ static void prop_block_builder_solve(Tape &t, Ctx &c) {
         if (model) VF_REQUIRE(resid <= tol, "block_matrix(make_matrix(builder)) + amg<2x2> + bicgstab: reported " << resid << " after " << iters << " iterations");
         c.label(resid <= tol ? "solved:block(builder)" : "not-converged-but-truthful:block(builder)");
     } catch (const vf::Fail &) { throw; }
-      catch (const std::runtime_error &e) { if (!model && std::string(e.what()).find("BiCGStab") != std::string::npos) c.label("breakdown:block(builder)"); else throw; }
+      catch (const std::runtime_error &e) { if (std::string(e.what()).find("in BiCGStab") != std::string::npos) c.label(model ? "breakdown(model):block(builder)" : "breakdown:block(builder)"); else throw; } // clean breakdown report, see props/c13_common.hpp
 }
 
 static void prop_reorder_block(Tape &t, Ctx &c) {
